@@ -17,6 +17,4 @@ INVARIANT B3_SilentWhileOff
 INVARIANT B4_CompleteAfterClose
 INVARIANT Contract
 PROPERTY WriterIdleWhenCancelled
-PROPERTY Drains
-PROPERTY Terminates
 CHECK_DEADLOCK FALSE
